@@ -19,6 +19,7 @@ def scenarios(tp):
     if tp in TCP_BASED:
         s.append("silent")
         s.append("longidle")
+        s.append("accblk")
     if tp in ("tcp", "btcp"):
         s.append("release")
     if tp in TLS_BASED:
